@@ -230,6 +230,8 @@ def all_cases():
     A(Case("RandomPermutation/3", lambda: PM.RandomPermutation(3), (3,)))
     A(Case("Permutation/image,dim=2", lambda: PM.Permutation(torch.tensor([1, 0]), dim=2), (1, 2, 1)))
     A(Case("SqueezeTransform/2", lambda: RS.SqueezeTransform(2), (1, 2, 2)))
+    A(Case("SqueezeTransform/2/non-square-2x4", lambda: RS.SqueezeTransform(2), (1, 2, 4)))
+    A(Case("SqueezeTransform/2/non-square-4x2", lambda: RS.SqueezeTransform(2), (1, 4, 2), tier="thorough"))
     A(Case("SqueezeTransform/3", lambda: RS.SqueezeTransform(3), (1, 3, 3), tier="thorough"))
     # ---- linear family ----
     for D in (1, 2, 3):
